@@ -6,3 +6,5 @@ import XPathV.Theorems.C12
 #print axioms XPathV.Theorems.C12.pull_refines_sequence
 #print axioms XPathV.Theorems.C12.exhausted_stays_exhausted
 #print axioms XPathV.Theorems.C12.reported_node_and_counters
+#print axioms XPathV.Theorems.C12.flat_paths_sorted
+#print axioms XPathV.Theorems.C12.single_descendant_sorted
